@@ -173,6 +173,15 @@ def satOp : P String := do
   let x ← many n rat
   pure (showBool (rows.all (fun row => Solver2.rowDot row (x ++ [-1]) == 0)))
 
+/-- `tol` followed by setter calls: `e <rat>` set_eps, `s <int>` set_sig_figures, `E` set_eps(), `S` set_sig_figures() -/
+def tolOps : List String → Option (List Tol.Op)
+  | [] => some []
+  | "e" :: r :: rest => do let x ← parseRat r; let tl ← tolOps rest; pure (.setEps x :: tl)
+  | "s" :: n :: rest => do let x ← n.toInt?; let tl ← tolOps rest; pure (.setSig x :: tl)
+  | "E" :: rest => do let tl ← tolOps rest; pure (.setEpsDefault :: tl)
+  | "S" :: rest => do let tl ← tolOps rest; pure (.setSigDefault :: tl)
+  | _ => none
+
 def handle (line : String) : String :=
   let toks := (line.trimAscii.toString.splitOn " ").filter (· ≠ "")
   match toks with
@@ -257,6 +266,13 @@ def handle (line : String) : String :=
       match Plane.ofGF a b c d with
       | .ok pl => showGeo (.plane pl)
       | .error e => "err " ++ showCErr e
+    | none => "bad-op"
+  | "tol" :: rest =>
+    match tolOps rest with
+    | some ops =>
+      match Tol.run Tol.init ops with
+      | some c => s!"{showRat c.eps} {c.sig}"
+      | none => "err"
     | none => "bad-op"
   | "solve" :: rest => match solveOp.run rest with | some (s, _) => s | none => "bad-op"
   | "sat" :: rest => match satOp.run rest with | some (s, _) => s | none => "bad-op"
